@@ -67,7 +67,8 @@ def base_cmd(dst):
     bt = os.environ.get("VERIF_BUILD_TAG", "")
     if bt and tag.endswith(bt):
         tag = tag[:-len(bt)] + "_alt"          # seed evaluations etc.: one extra directory per property, not one per run
-    if tag.startswith("DEV_"):
+    tag = re.sub(r"_cex(?=$|_)", "", tag)       # the counterexample pass of a check runs after its harnesses, in the same process
+    if tag.upper().startswith("DEV"):
         tag = "DEV"                             # development runs (tools/dev_kani.py)
     return ["cargo", "kani", "-Z", "function-contracts", "-Z", "stubbing", "--output-format", "terse",
             "--target-dir", TARGET_DIR + "_" + re.sub(r"[^\w.-]", "_", tag)]
@@ -156,6 +157,7 @@ def playback(dst, h):
     env_save = ENV.get("CARGO_TARGET_DIR")
     ENV["CARGO_TARGET_DIR"] = base_cmd(dst)[-1] + "_pb"
     rc2, out2, _, _ = _run(["cargo", "kani", "playback", "-Z", "concrete-playback", "--", test], dst, 1200)
+    shutil.rmtree(ENV["CARGO_TARGET_DIR"], ignore_errors=True)      # a native test build of the crate (1.3 GB): not worth keeping
     if env_save is None:
         ENV.pop("CARGO_TARGET_DIR", None)
     tail = "\n".join(l for l in out2.splitlines() if "panicked" in l or l.startswith("test ") or "assertion" in l)[-3000:]
